@@ -26,6 +26,12 @@ ID_POOL = ['select', 'from', 'order', 'group', 'a b', 'a.b', 'AbC', '_x', '1a', 
 STR_POOL = ['a b', '%x_', 'ü', 'select', '--x', '/*', ' lead', 'UPPER', 'a,b', '(x)', '1', 'null', 'a.b', 'x;y', 'a=b', '{k:1}', 'a`b', 'tab\there']
 
 
+RAW_SECTIONS = ["CREATE VIEW v AS (\n  select a\n\n  from t\n)", "select * from int1 (select a\n\n   from x\n where b = 1)",
+                "create view v from pg (select 1\n  -- only a comment\n  from t)", "CREATE MODEL m FROM db (select a,\n\n\n b from t) PREDICT b",
+                "select * from int1 (select a\n from x\n where b = 1)", "select * from int1 ((select 1) union (select 2))",
+                "create job j (select 1\n\n; select 2)", "create view v as (select a from t where b = 'x y')"]
+
+
 def nl(s):
     return '[' + '; '.join(str(ord(c)) for c in s) + ']%N'
 
@@ -174,6 +180,8 @@ def run(tier, seed, replay=None):
             n = 150 if tier == 'quick' else 2000
             texts += [c06.gen_statement(rng) for _ in range(n)] + [c08.gen_statement(rng, c08.ALL_FEATURES) for _ in range(n)]
             texts += [plangen.gen_statement(rng, plangen.ALL_FEATURES)[0] for _ in range(n)]
+        if d == 'mindsdb' and not replay:
+            texts += RAW_SECTIONS
         muts = []
         for s in texts:
             for _ in range(1 if tier == 'quick' else 4):
@@ -247,7 +255,8 @@ def run(tier, seed, replay=None):
             out.append('string_quote_escape')
         if re.match(r'SHOW ENGINE .* None\b', s1) or re.match(r'SHOW \S+ CODE$', s1) or re.match(r'SHOW ENGINE ', s1):
             out.append('show_printing')
-        if (re.search(r'[\t\n\r\\]', s) and re.search(r'\\[tnr\\]', s1)) or "'`" in s1:
+        if (re.search(r'[\t\n\r\\]', s) and re.search(r'\\[tnr\\]', s1)) or "'`" in s1 or \
+                (re.search(r'[^\x00-\x7f]', s) and re.search(r'\\u[0-9a-fA-F]{4}', s1)):
             out.append('command_parameter_printing')
         if (key[1] == 'tree differs' and 'alias=Identifier' in str(key) and ' AS `' in s1) or ' AS ``' in s1:
             out.append('quoted_alias_keeps_backquotes')
